@@ -140,6 +140,14 @@ func c18R2(c *Ctx, rule string) {
 			return v.Seen("told") && v.Seen("deferred") && v.Seen("setup") && (v.F("haveNotify") || v.Seen("tried"))
 		})
 	}
+	// once leadership was announced, every way out of runLeader goes through the
+	// deferred exit function (which announces the loss): no return between the
+	// announcement and the defer statement
+	for i, ret := range engine.ReturnsOf(fn) {
+		c.RequireAt(r, rule, fmt.Sprintf("runLeader:no-exit-between-announcement-and-defer#%d", i+1), ret, "a return of runLeader after leaderCh/NotifyCh were told 'true' happens only with the exit function already deferred", func(v engine.View) bool {
+			return !(v.Seen("told") || v.Seen("tried")) || v.Seen("deferred")
+		})
+	}
 	// channel identity: both functions use the channel read once from config
 	var cell string
 	engine.EachInstr(fn, func(in ssa.Instruction) {
